@@ -1024,6 +1024,14 @@ def _numcells_read(s, want):
     the exponent digits are concrete, pow10(E) otherwise)."""
     cx = sym.ctx()
     cells = list(s.cells)
+    # memo (C06: history() reads the same cells once per call): a float read that did not fork
+    # is repeated from its recorded parts - same term, fact re-asserted on the current path
+    key = (want,) + tuple(c if isinstance(c, str) else builtins.id(c) for c in cells)
+    hit = _NC_CACHE.get(key)
+    if hit is not None and _same_cells(hit[0], cells):
+        return _numval_again(hit[1])
+    ndec = builtins.len(cx.decisions)
+    cx.__dict__['_last_numval'] = None
     def attempt(cs):
         try: return _num_skeleton_parse(cs, want)
         except ValueError: return None
@@ -1060,7 +1068,22 @@ def _numcells_read(s, want):
             if cx.branch(c.code == v):
                 return rec(cs[:i] + [chr(v)] + cs[i + 1:])
         return rec(cs[:i] + [chr(doms[-1])] + cs[i + 1:])
-    return rec(cells)
+    val = rec(cells)
+    last = cx.__dict__.get('_last_numval')
+    if last is not None and last[0] is val and builtins.len(cx.decisions) == ndec:
+        _NC_CACHE[key] = (cells, last)
+    return val
+
+_NC_CACHE = {}
+
+def _numval_again(rec):
+    val, term, fact, parts = rec
+    cx = sym.ctx()
+    if fact is not None:
+        hit = cx.known.get(fact.get_id())
+        if hit is None or not hit.eq(fact): cx.add(fact)
+    cx.__dict__.setdefault('_num_parts', {})[term.get_id()] = parts
+    return val
 
 def _numval(sgn, M, E, want):
     if want == 'int':
@@ -1068,12 +1091,18 @@ def _numval(sgn, M, E, want):
             raise Unsupported('int() of a number with point/exponent')   # int() has already rejected these
         return SInt(z3.simplify(sgn * M))
     p = pow10_term(E)
+    fact = None
     if not z3.is_rational_value(p):
-        sym.ctx().add(p > 0)
+        fact = p > 0
+        hit = sym.ctx().known.get(fact.get_id())       # (C06: the same cell is read many times; assert the fact once per path)
+        if hit is None or not hit.eq(fact): sym.ctx().add(fact)
     term = sgn * z3.ToReal(M) * p
     reg = sym.ctx().__dict__.setdefault('_num_parts', {})
-    reg[term.get_id()] = (term, sgn if not isinstance(sgn, builtins.int) else z3.IntVal(sgn), M, E)
-    return SReal(term)
+    parts = (term, sgn if not isinstance(sgn, builtins.int) else z3.IntVal(sgn), M, E)
+    reg[term.get_id()] = parts
+    val = SReal(term)
+    sym.ctx().__dict__['_last_numval'] = (val, term, fact, parts)
+    return val
 
 
 def num_parts(x):
